@@ -12,7 +12,7 @@ TRUSTED = [
     "correspondence harness (op geom), generators, and the rounding tolerances below (multiples of 2^-52 scaled by the conditioning of each helper; ill-conditioned arguments are skipped and counted)",
     "glam 0.27 vector/matrix methods are modelled by V3.* / det3cols / det4cols; IEEE rounding is not modelled (tolerance only)",
 ]
-OBL, FRAGS = [], []   # filled in once the Geom translator fragment exists
+OBL, FRAGS = ['MVoro.Obl.Geom'], ['Geom']
 EPS = Fraction(1, 2 ** 52)
 PREC = 10 ** 40
 
